@@ -135,7 +135,7 @@ class ShiftedServer(QueuedResource):
 
     def handle_event(self, event: Event):
         if event.event_type == _SHIFT_CHANGE:
-            return self._handle_shift_change()
+            return self._handle_shift_change(event)
 
         # On first real event, schedule the first shift change
         if not self._initialized:
@@ -148,8 +148,15 @@ class ShiftedServer(QueuedResource):
 
         return super().handle_event(event)
 
-    def _handle_shift_change(self) -> list[Event]:
+    def _handle_shift_change(self, event: Event | None = None) -> list[Event]:
+        # Evaluate the schedule at the boundary this event stands for, not at
+        # the clock reading: a boundary such as 2.05 s becomes the instant
+        # 2_049_999_999 ns, which reads back as 2.049999999 s -- *before* the
+        # boundary, so the old shift would still apply and "the next transition
+        # after now" would be this same boundary again, forever.
         time_s = self.now.to_seconds()
+        if event is not None:
+            time_s = max(time_s, event.context.get("boundary_s", time_s))
         new_capacity = self.schedule.capacity_at(time_s)
         old_capacity = self._current_capacity
         self._current_capacity = new_capacity
@@ -163,7 +170,7 @@ class ShiftedServer(QueuedResource):
         )
 
         # Schedule the next shift change (self-perpetuating)
-        next_event = self._schedule_next_shift()
+        next_event = self._schedule_next_shift(time_s)
         events = [next_event] if next_event else []
 
         # Added capacity must be offered to work that is already waiting:
@@ -174,20 +181,21 @@ class ShiftedServer(QueuedResource):
             )
         return events
 
-    def _schedule_next_shift(self) -> Event | None:
-        """Schedule only the next transition event."""
+    def _schedule_next_shift(self, after_s: float | None = None) -> Event | None:
+        """Schedule only the next transition event (strictly after ``after_s``)."""
         from happysimulator.core.temporal import Instant
 
-        current_s = self.now.to_seconds()
+        current_s = self.now.to_seconds() if after_s is None else after_s
         next_t = self.schedule.next_transition_after(current_s)
         if next_t is None:
             return None
 
         return Event(
-            time=Instant.from_seconds(next_t),
+            time=max(Instant.from_seconds(next_t), self.now),
             event_type=_SHIFT_CHANGE,
             target=self,
             daemon=True,
+            context={"boundary_s": next_t},
         )
 
     def handle_queued_event(
